@@ -24,7 +24,7 @@ def valCfg : FileCfg := ⟨Gen.valSizeAry, Gen.valFreeOffsets, Gen.valFreeOffset
 inductive Slot (α : Type) where
   | used (size : Nat) (p : α)
   | free (size : Nat) (next : Nat)
-  deriving Repr
+  deriving Repr, DecidableEq
 
 def Slot.size {α : Type} : Slot α → Nat
   | .used s _ => s
@@ -35,7 +35,7 @@ structure RecFile (α : Type) where
   slots : List (Nat × Slot α)
   heads : List Nat
   end_ : Nat
-  deriving Repr
+  deriving Repr, DecidableEq
 
 namespace RecFile
 variable {α : Type}
